@@ -16,6 +16,7 @@ Streams
      SAMI doc -> SAMIReader -> SAMIWriter / DFXP writers -> reader; DFXP doc -> DFXPReader -> SAMIWriter / DFXPWriter.
   H  2-3 step histories on ONE writer object.
   FL SAMIParser._find_lang / handle_starttag called directly (stylesheet dict + attribute lists) - oracle ok_find_lang / ok_p_langs
+     round 4: streams C / F / FL also write <P> attributes WITHOUT a value (<P class>, <P lang>); the model gets "" for them
   CSS SAMIParser._css_parse on language blocks as the writer emits them - model read_styles
   M  pycaption.base.merge_concurrent_captions on caption sets with runs of equal (start, end) - oracle ok_merge
 Correspondence: observation == extracted model (coq/model/Langs.v).  Property oracle: coq/spec/SpecLangs.v ok_*.
@@ -223,7 +224,7 @@ SAMI_CLASSES = [("ENCC", "en"), ("USCC", "en-US"), ("FRCC", "fr"), ("DECC", "de"
 
 
 def gen_sami_doc(rng, default):
-    """-> (styles, ps, tags_cut, tags_full, doc).  tags_*: the language the STATEMENT assigns to every paragraph ("by
+    """-> (styles, ps, tags_cut, tags_full, doc, valueless).  tags_*: the language the STATEMENT assigns to every paragraph ("by
     class / lang attribute; none -> the configured default"), with an inline lang taken as its two-letter primary
     subtag (cut, what pycaption documents) or whole (full) - both readings are accepted by the oracle."""
     classes = rng.sample(SAMI_CLASSES, rng.randint(1, 4))
@@ -234,12 +235,14 @@ def gen_sami_doc(rng, default):
     styles = [[c.lower(), l] for c, l in classes] + [["plain", None], ["narrow", None]]
     css = (" ".join(".%s {lang: %s;}" % (c, l) for c, l in classes)
            + " .PLAIN {color: #ffffff;} .NARROW {margin-left: 5%;}")
-    ps, body, tags_cut, tags_full = [], [], [], []
+    ps, body, tags_cut, tags_full, valueless = [], [], [], [], []
     t = 0 if rng.random() < 0.25 else rng.randrange(0, 3000)
     first = True
 
     def astr_of(attrs):
-        return "".join(' %s="%s"' % (a, v) for a, v in attrs)
+        # a value of None is an attribute written WITHOUT a value (<P class>, <P lang>): html.parser hands None to
+        # handle_starttag; the repaired _find_lang reads it as the empty value, which is what the model gets
+        return "".join((' %s' % a) if v is None else (' %s="%s"' % (a, v)) for a, v in attrs)
     for si in range(rng.randint(1, 6)):
         if not (first and t == 0):
             t += rng.choice([500, 1000, 2500])
@@ -250,7 +253,26 @@ def gen_sami_doc(rng, default):
             inline = rng.choice(["fr", "en-US", "en", "de-AT", "e", "fr", l])
             lname = rng.choice(["lang", "lang", "LANG"])
             nolang_cls = rng.choice(["NARROW", "PLAIN", "narrow", "Unknown"])
-            if r < 0.35:
+            vname = rng.choice(["class", "lang", "CLASS", "Lang"])
+            if r < 0.08:
+                # round 4: an attribute WITHOUT a value.  Alone or beside attributes naming no language -> the default;
+                # a later / earlier attribute that names a language decides (the valueless one names none).
+                # (a valueless lang BEFORE a language class is left to stream FL: it names the empty language, whose
+                # effect the statement does not decide - design/C14.md, interpretive decisions)
+                k = rng.randrange(6)
+                if k == 0:
+                    attrs, lang = [[vname, None]], None
+                elif k == 1:
+                    attrs, lang = [["class", None], [lname, inline]], (inline[:2], inline)
+                elif k == 2:
+                    attrs, lang = [["class", None], ["class", c]], (l, l)
+                elif k == 3:
+                    attrs, lang = [["class", c], [vname, None]], (l, l)
+                elif k == 4:
+                    attrs, lang = [["class", nolang_cls], [vname, None]], None
+                else:
+                    attrs, lang = [[lname, inline], [vname, None]], (inline[:2], inline)
+            elif r < 0.35:
                 attrs, lang = [["class", rng.choice([c, c, c.lower(), c.capitalize()])]], (l, l)
             elif r < 0.45:
                 attrs, lang = [[lname, inline]], (inline[:2], inline)
@@ -270,14 +292,16 @@ def gen_sami_doc(rng, default):
             blank = rng.random() < (0.5 if first else 0.12)     # also as the very first paragraph of a language
             first = False
             text = "&nbsp;" if blank else "s%dp%d words" % (si, pi)
-            ps.append([attrs, t, " " if blank else text])
+            ps.append([[[a, v if v is not None else ""] for a, v in attrs], t, " " if blank else text])
+            valueless.append(sum(1 for a, v in attrs if v is None))
             tags_cut.append([lang[0] or default, [t * 1000, " " if blank else text], blank])
             tags_full.append([lang[1] or default, [t * 1000, " " if blank else text], blank])
             body.append("<P%s>%s" % (astr_of(attrs), text))
         body.append("</SYNC>")
     doc = ('<SAMI><HEAD><TITLE>t</TITLE><STYLE TYPE="text/css"><!-- P {margin-left: 1%%;} %s --></STYLE></HEAD><BODY>\n%s\n'
            '</BODY></SAMI>' % (css, "\n".join(body)))
-    return styles, ps, tags_cut, tags_full, doc
+    # valueless: per paragraph, the number of attributes written without a value (counted only)
+    return styles, ps, tags_cut, tags_full, doc, valueless
 
 
 
@@ -317,11 +341,20 @@ def gen_find_lang(rng):
                 attrs.append(["class", varcase(rng, rng.choice(without))])
             elif r < 0.74:
                 attrs.append(["class", rng.choice(["unknown", "Other", "", "encc narrow", "narrow encc", " encc"])])
+            elif r < 0.82:
+                # round 4: an attribute without a value - html.parser hands (name, None) to handle_starttag
+                attrs.append([rng.choice(["class", "lang", "class", "lang", "id"]), None])
             else:
                 attrs.append([rng.choice(["id", "style", "xml:lang", "langs", "clas", "title"]),
                               rng.choice(["fr", "encc", "x1", "", "color: red"])])
         ps.append(attrs)
     return styles, real, ps
+
+
+def empty_for_none(ps):
+    """the model's view of the attribute lists: a valueless attribute carries the empty value (the repaired code's
+    `value = value or ''`)"""
+    return [[[a, v if v is not None else ""] for a, v in attrs] for attrs in ps]
 
 
 def whole_find(styles, attrs):
@@ -509,8 +542,9 @@ def stream_jobs(ctx, default):
         for pick in order:
             out.append(("E", {"op": "vtt_write", "cs": gcs, "lang": pick}, {"cs": ms_floor(start_text(gcs)), "pick": pick}))
     for _ in range(ctx.n(200, 4000)):
-        styles, ps, tc, tf, doc = gen_sami_doc(rng, default)
-        out.append(("C", {"op": "sami_read", "doc": doc}, {"styles": styles, "ps": ps, "tags_cut": tc, "tags_full": tf}))
+        styles, ps, tc, tf, doc, vl = gen_sami_doc(rng, default)
+        out.append(("C", {"op": "sami_read", "doc": doc}, {"styles": styles, "ps": ps, "tags_cut": tc, "tags_full": tf,
+                                                        "valueless": vl}))
     for _ in range(ctx.n(200, 4000)):
         # the quantifier says "non-overlapping within a language": no concurrent cues for the SAMI writer
         cs, styles, shape, flags = gen_capset(rng, sub_ms=rng.random() < 0.3, concurrent=False)
@@ -547,7 +581,7 @@ def stream_jobs(ctx, default):
     # F: pipelines reader -> writer -> reader
     for _ in range(ctx.n(120, 2500)):
         if rng.random() < 0.6:
-            styles, ps, tc, tf, doc = gen_sami_doc(rng, default)
+            styles, ps, tc, tf, doc, vl = gen_sami_doc(rng, default)
             src = "sami"
         else:
             tt, flat, doc, tree, stats = gen_dfxp_doc(rng)
@@ -565,7 +599,7 @@ def stream_jobs(ctx, default):
     # wave 7: the real _find_lang / handle_starttag, _css_parse and merge_concurrent_captions called directly
     for _ in range(ctx.n(150, 1000)):
         styles, real, ps = gen_find_lang(rng)
-        out.append(("FL", {"op": "find_lang", "styles": real, "ps": ps}, {"styles": styles, "ps": ps}))
+        out.append(("FL", {"op": "find_lang", "styles": real, "ps": ps}, {"styles": styles, "ps": empty_for_none(ps)}))
     for _ in range(ctx.n(40, 200)):
         blocks, css = gen_css(rng)
         out.append(("CSS", {"op": "css_parse", "css": css}, {"blocks": blocks}))
@@ -795,6 +829,8 @@ def judge(acc, cfg, items, obs, models):
                     if l not in seen and blank:
                         acc.count("C_language_whose_first_paragraph_is_blank")
                     seen.add(l)
+                acc.count("C_p_attribute_without_a_value(<P class> / <P lang>)", sum(info.get("valueless", [])))
+                acc.count("C_documents_with_a_valueless_p_attribute", int(any(info.get("valueless", []))))
                 for attrs, _, _ in info["ps"]:
                     names = [a.lower() for a, _ in attrs]
                     if names == ["class", "lang"]:
@@ -858,6 +894,9 @@ def judge(acc, cfg, items, obs, models):
                 continue
             acc.res["nontrivial"].add(("FL", json.dumps(inp["job"])))
             acc.count("FL_paragraphs", n)
+            acc.count("FL_attribute_without_a_value(class)", sum(1 for a in inp["job"]["ps"] for x, v in a if v is None and x == "class"))
+            acc.count("FL_attribute_without_a_value(lang)", sum(1 for a in inp["job"]["ps"] for x, v in a if v is None and x == "lang"))
+            acc.count("FL_attribute_without_a_value(other name)", sum(1 for a in inp["job"]["ps"] for x, v in a if v is None and x not in ("class", "lang")))
             for a, f in zip(info["ps"], o["found"]):
                 names = [x.lower() for x, _ in a]
                 if f is None or f == "":
